@@ -162,3 +162,24 @@ PROPS["C12"] = dict(
         technique="property-based testing (rapid) with ground-truth labels and a round-trip through the rendering",
     ),
 )
+
+PROPS["C15"] = dict(
+    pkg="c15",
+    level="exploration",
+    rule=("documents from the HTML / Markdown / gemtext / plain-text grammars (links, media, nesting, preformatted blocks, unbreakable "
+          "tokens of up to 90 characters); sequences of 1..8 Render calls at widths 1..200 with repeats and returns to 80 (the width "
+          "pre-rendered at construction). Required after every call: every line has at most `width` visible characters (emulator "
+          "count) and the text equals Render(width) of a freshly constructed markup of the same document. Non-trivial: the document "
+          "has a token longer than one of the widths and the sequence revisits a width after a different one. Distinct = distinct "
+          "(document, width sequence)."),
+    units=[
+        rapid("Prop", "TestProp", 8000, 300000),
+    ],
+    manifest=dict(
+        text=("Stateful property-based test over render histories with two oracles: the width bound measured by an independent "
+              "emulator, and a metamorphic history-independence relation against a fresh render. Sampled."),
+        design_ref="DESIGN.md §3 C15",
+        note="Trusted: the emulator's cell count (one cell per rune, as the statement's 'visible characters').",
+        technique="property-based testing (rapid) over call histories with a metamorphic fresh-render oracle",
+    ),
+)
